@@ -25,10 +25,10 @@ EV_PROP = {
     "add": "C16", "dep": "C16", "retries": "C16", "deferr": "C16", "config": "C16",
 }
 DIAG_PROP = {
-    "dependency-not-finished": "C13", "launched-twice": "C13",
-    "run-after-failure-or-cancel": "C14", "run-of-skipped": "C14", "wrong-kind": "C14",
-    "serial-overlap": "C15",
-    "not-running": "C16", "unknown-vertex": "C16",
+    "dependency-not-finished": ("C13",), "launched-twice": ("C13",),
+    "run-after-failure-or-cancel": ("C14",), "run-of-skipped": ("C13", "C14"), "wrong-kind": ("C14",),
+    "serial-overlap": ("C15",),
+    "not-running": ("C16",), "unknown-vertex": ("C16",),
 }
 
 MC_BASE = """SPECIFICATION %(spec)s
@@ -61,7 +61,7 @@ ALL3 = '{"nil", "err", "skipparents"}'
 LIVE = "PROPERTIES Termination ReadyStarts InFlightFinish"
 MC_CONFIGS = {
     "C13": {
-        "quick": [mc("retries", maxretries=1, limits="{2}"), mc("serial", serials="{TRUE}", limits="{1, 3}")],
+        "quick": [mc("retries", maxretries=1, limits="{2}", outcomes='{"nil", "err"}'), mc("skip-serial", serials="{FALSE, TRUE}", limits="{1, 3}")],
         "thorough": [mc("retries3", maxretries=1, limits="{1, 2}", cancel="TRUE"), mc("retries2x2", tasks="{1, 2}", maxretries=2, limits="{1, 2}", serials="{FALSE, TRUE}", cancel="TRUE"),
                      mc("four", tasks="{1, 2, 3, 4}", limits="{2}", outcomes='{"nil", "err"}')],
     },
@@ -89,11 +89,26 @@ MC_CONFIGS = {
 }
 
 # driver emphasis per property: (sub-command, extra args, runs quick, runs thorough)
+# "exhaust": every DAG on v vertices x every outcome assignment x edge declaration orders (n is ignored; the work is sharded)
 DRIVERS = {
-    "C13": [("rand", ["-maxv", "4", "-weird", "0.05"], 480, 12000), ("rand", ["-maxv", "6", "-weird", "0"], 160, 4000)],
-    "C14": [("rand", ["-maxv", "4", "-weird", "0.05"], 480, 12000), ("rand", ["-maxv", "5", "-weird", "0"], 160, 4000)],
-    "C15": [("rand", ["-maxv", "4", "-weird", "0.05"], 320, 8000), ("two", ["-maxv", "3"], 160, 4000)],
-    "C16": [("rand", ["-maxv", "4", "-weird", "0.6"], 480, 12000), ("rand", ["-maxv", "3", "-weird", "0.9"], 160, 4000)],
+    "C13": [("rand", ["-maxv", "4", "-weird", "0.05"], 480, 12000), ("rand", ["-maxv", "6", "-weird", "0"], 160, 4000),
+            ("exhaust", ["-v", "4", "-outs", "nil,skipparents", "-orders", "3"], 0, 0),
+            ("exhaust", ["-v", "3", "-outs", "nil,err,skipparents", "-orders", "2", "-limit", "2"], 0, 0)],
+    "C14": [("rand", ["-maxv", "4", "-weird", "0.05"], 480, 12000), ("rand", ["-maxv", "5", "-weird", "0"], 160, 4000),
+            ("exhaust", ["-v", "4", "-outs", "nil,skipparents", "-orders", "3"], 0, 0),
+            ("exhaust", ["-v", "4", "-outs", "nil,err", "-orders", "2", "-limit", "2"], 0, 0)],
+    "C15": [("rand", ["-maxv", "4", "-weird", "0.05"], 320, 8000), ("two", ["-maxv", "3"], 160, 4000),
+            ("exhaust", ["-v", "4", "-outs", "nil", "-orders", "1", "-limit", "1"], 0, 0),
+            ("exhaust", ["-v", "4", "-outs", "nil", "-orders", "1", "-limit", "2"], 0, 0),
+            ("exhaust", ["-v", "3", "-outs", "nil,err,skipparents", "-orders", "1", "-serial"], 0, 0)],
+    "C16": [("rand", ["-maxv", "4", "-weird", "0.6"], 480, 12000), ("rand", ["-maxv", "3", "-weird", "0.9"], 160, 4000),
+            ("exhaust", ["-v", "3", "-outs", "nil,err", "-orders", "1", "-limit", "1"], 0, 0)],
+}
+THOROUGH_EXTRA = {
+    "C13": [("exhaust", ["-v", "4", "-outs", "nil,err,skipparents", "-orders", "3"], 0, 0), ("exhaust", ["-v", "5", "-outs", "nil,skipparents", "-orders", "2", "-limit", "2"], 0, 0)],
+    "C14": [("exhaust", ["-v", "4", "-outs", "nil,err,skipparents", "-orders", "3"], 0, 0), ("exhaust", ["-v", "5", "-outs", "nil,skipparents", "-orders", "2"], 0, 0)],
+    "C15": [("exhaust", ["-v", "4", "-outs", "nil,err,skipparents", "-orders", "1", "-serial"], 0, 0), ("exhaust", ["-v", "5", "-outs", "nil", "-orders", "1", "-limit", "2"], 0, 0)],
+    "C16": [("exhaust", ["-v", "4", "-outs", "nil,err", "-orders", "1", "-limit", "1"], 0, 0)],
 }
 
 PROPS = {"C13": {}, "C14": {}, "C15": {}, "C16": {}}
@@ -199,12 +214,13 @@ def validate(work, name, trace):
 
 
 def attribute(r):
+    """-> tuple of the properties a rejection belongs to"""
     if r["invariant"]:
-        return INV_PROP.get(r["invariant"], "C16")
+        return (INV_PROP.get(r["invariant"], "C16"),)
     ev = r["event"].get("ev")
     if ev == "launch":
-        return DIAG_PROP.get(r["why"] or "", "C14")
-    return EV_PROP.get(ev, "C16")
+        return DIAG_PROP.get(r["why"] or "", ("C14",))
+    return (EV_PROP.get(ev, "C16"),)
 
 
 def check(prop, tier, seed, work, replay, t0):
@@ -214,35 +230,48 @@ def check(prop, tier, seed, work, replay, t0):
         return do_replay(prop, dagdrive, work, replay)
     states, transitions = run_mc(work, prop, tier)
 
-    jobs = []
-    for di, (sub, extra, nq, nt) in enumerate(DRIVERS[prop]):
-        n = nq if tier == "quick" else nt
-        per = max(1, n // NCPU)
-        for k in range(NCPU):
-            jobs.append((sub, extra, per, seed * 100000 + di * 1000 + k, "%s%d-%d" % (sub, di, k)))
+    drivers = DRIVERS[prop] + (THOROUGH_EXTRA.get(prop, []) if tier == "thorough" else [])
+    jobs = list(range(NCPU))
 
-    def one(job):
-        sub, extra, n, sd, name = job
+    def one(k):
+        name = "shard-%d" % k
         trace = os.path.join(work, "tr", name + ".ndjson")
         plans = os.path.join(work, "tr", name + ".plans")
-        args = [dagdrive, sub, "-n", str(n), "-seed", str(sd), "-out", trace] + extra
-        if sub == "rand":
-            args += ["-plans", plans]
-        p = subprocess.run(args, stdout=subprocess.PIPE, stderr=subprocess.STDOUT, text=True, env=GOENV, timeout=7200)
-        if p.returncode != 0:
-            raise Broken("dagdrive failed (%d): %s\n%s" % (p.returncode, " ".join(args), p.stdout[-2000:]))
         info = {"cases": 0, "nontrivial": 0, "hangs": 0, "overlap": 0, "stats": {}}
-        for line in p.stdout.splitlines():
-            if line.startswith("STATS "):
-                info["stats"] = json.loads(line[6:])
-                continue
-            for kv in line.split():
-                if "=" in kv:
-                    k, v = kv.split("=", 1)
-                    if k in info and v.isdigit():
-                        info[k] += int(v)
+        with open(trace, "w") as tout, open(plans, "w") as pout:
+            for di, (sub, extra, nq, nt) in enumerate(drivers):
+                n = nq if tier == "quick" else nt
+                per = max(1, n // NCPU)
+                part, ppart = trace + ".part", plans + ".part"
+                args = [dagdrive, sub, "-seed", str(seed * 100000 + di * 1000 + k), "-out", part, "-runbase", str(di * 10000000)] + list(extra)
+                if sub == "exhaust":
+                    args += ["-shard", str(k), "-of", str(NCPU)]
+                else:
+                    args += ["-n", str(per)]
+                if sub in ("rand", "exhaust"):
+                    args += ["-plans", ppart]
+                p = subprocess.run(args, stdout=subprocess.PIPE, stderr=subprocess.STDOUT, text=True, env=GOENV, timeout=7200)
+                if p.returncode != 0:
+                    raise Broken("dagdrive failed (%d): %s\n%s" % (p.returncode, " ".join(args), p.stdout[-2000:]))
+                for line in p.stdout.splitlines():
+                    if line.startswith("STATS "):
+                        for k2, v2 in json.loads(line[6:]).items():
+                            info["stats"][k2] = info["stats"].get(k2, 0) + v2
+                        continue
+                    for kv in line.split():
+                        if "=" in kv:
+                            a, b = kv.split("=", 1)
+                            if a in info and b.isdigit():
+                                info[a] += int(b)
+                with open(part) as f:
+                    shutil.copyfileobj(f, tout)
+                os.remove(part)
+                if os.path.exists(ppart):
+                    with open(ppart) as f:
+                        shutil.copyfileobj(f, pout)
+                    os.remove(ppart)
         ok, rej = validate(work, name, trace)
-        return dict(name=name, trace=trace, plans=plans if sub == "rand" else None, info=info, ok=ok, rej=rej, sub=sub)
+        return dict(name=name, trace=trace, plans=plans, info=info, ok=ok, rej=rej)
 
     t1 = time.time()
     with ThreadPoolExecutor(max_workers=NCPU) as ex:
@@ -267,7 +296,7 @@ def check(prop, tier, seed, work, replay, t0):
         if r["info"]["overlap"] and prop == "C15":
             viols.append(dict(kind="overlap", res=r, rej=None))
         for rj in r["rej"]:
-            if attribute(rj) == prop:
+            if prop in attribute(rj):
                 viols.append(dict(kind="reject", res=r, rej=rj))
             else:
                 notes += 1
@@ -371,7 +400,7 @@ def do_replay(prop, dagdrive, work, path):
     trace = os.path.join(work, "tr", "replay.ndjson")
     run([dagdrive, "rerun", "-in", src, "-out", trace, "-times", "30"], env=GOENV)
     ok, rej = validate(work, "replay", trace)
-    mine = [r for r in rej if attribute(r) == prop]
+    mine = [r for r in rej if prop in attribute(r)]
     if mine:
         rj = mine[0]
         log("VIOLATION property=%s replay=%s" % (prop, path))
